@@ -107,8 +107,12 @@ impl BaseElement {
         let s_lo = s as u64;
         let z = (s_hi << 32) - s_hi;
         let (res, over) = s_lo.overflowing_add(z);
+        let res = res.wrapping_add(0u32.wrapping_sub(over as u32) as u64);
 
-        BaseElement::from_mont(res.wrapping_add(0u32.wrapping_sub(over as u32) as u64))
+        // `res` is congruent to the product but may lie in [M, 2^64); subtract the modulus once
+        // more so that the internal value stays in the canonical range [0, M)
+        let (red, under) = res.overflowing_sub(M);
+        BaseElement::from_mont(if under { res } else { red })
     }
 }
 
@@ -131,7 +135,12 @@ impl FieldElement for BaseElement {
     fn double(self) -> Self {
         let ret = (self.0 as u128) << 1;
         let (result, over) = (ret as u64, (ret >> 64) as u64);
-        Self(result.wrapping_sub(M * over))
+        let result = result.wrapping_sub(M * over);
+
+        // when the doubling did not overflow 64 bits, `result` may still lie in [M, 2^64);
+        // subtract the modulus once more so that the internal value stays in [0, M)
+        let (red, under) = result.overflowing_sub(M);
+        Self(if under { result } else { red })
     }
 
     #[inline]
